@@ -549,6 +549,8 @@ def _comprehension_form(f, mask_var: str, pass_var: str, prog: Optional[Program]
         return None
     # the kept records
     okp = False
+    if fn(pv) in ("list", "tuple") and len(pv.args) == 1:
+        pv = pv.args[0]         # list(<generator>) holds the generator's values in order
     if fn(pv) == "comp" and len(pv.args) == 2 and fn(pv.args[1]) == "gen" and len(pv.args[1].args) == 3:
         var, seq, cnd = pv.args[1].args
         item = sp.Function("item")
